@@ -494,7 +494,7 @@ fn run_c10(ctx: &mut Ctx) {
         if !ctx.mine() {
             continue;
         }
-        for n in 0..=k {
+        for n in 0..=k.min(TYPE_FIXED_CAP[ty].unwrap_or(99)) {
             for va in gen::all_values(n) {
                 let sig = model::sig_bits(&va);
                 for l2 in sig..=(k + 2).min(TYPE_FIXED_CAP[ty].unwrap_or(99)) {
